@@ -1,3 +1,5 @@
+import e2e_e2etraffic
+
 RUNNER = {"pkg": "./vflow", "test": "TestVerifPipeline", "race": False}
 
 SPEC = {
@@ -8,13 +10,22 @@ SPEC = {
              # still every datagram counted once, nothing published twice, every payload the solo JSON of one datagram
              {"kind": "pipeline", "label": "pipeline-stall", "seed_offset": 53, "quick": 16, "thorough": 600, "model": False,
               "runner": RUNNER, "env": {"VERIF_PIPE_STALL": "1"}}],
+    # the property's own observation points (/flow statistics API, lines at the message-queue sink) on the unmodified binary
+    "extra": [e2e_e2etraffic.traffic_cycles],
     "search_factor": 2,
     "rule": "a case = protocol (ipfix/v9/v5/sflow) x 1..64 real worker goroutines x 20..2000 datagrams (about 70 % yield a "
             "message, the rest template-less / undecodable / malformed / marshal-failing; NetFlow v5: 6 % with the last record 1..47 "
             "octets short and 6 % cut anywhere - class x, Decode fails, must not be counted: F29) sent over loopback UDP through the real "
             "read loop (so UDPCount is the real counter), pools, channels and worker functions, < 400 in flight, MQ drained; "
             "implementation line = UDPCount / DecodedCount deltas and number of messages taken from the MQ channel, compared with "
-            "the model's run of the extracted worker program; non-trivial = every case; distinct = distinct case line",
+            "the model's run of the extracted worker program; non-trivial = every case; distinct = distinct case line. "
+            "e2e-traffic (the REAL binary, DESIGN.md §6 *End-to-end*): 6 (quick) / 200 (thorough) cycles, each starting the unmodified vflow binary (four listeners, producer rawSocket -> a TCP sink of the harness, fresh cache files, 1..64 workers, read buffers of 1500 / 9000 octets) and sending it about 300 / 2000 datagrams of the ipfix, nf9, nf5 and sflow generators from per-session loopback exporter addresses, in phases separated by the collector's own counters (no dependence on worker order, K5), paced by its UDPCount (no socket overflow); expectation per datagram from the real decoders in-process (`corr e2eref`); C13 demands, per protocol at quiescence: UDPCount = datagrams sent to its port (short with kernel drops: no "
+            "verdict), DecodedCount = datagrams the reference counts as decoded (ipfix / v9 / v5: a message resp. no error; sFlow: "
+            "published), the multiset of lines at the sink = the multiset of the reference's solo JSON payloads (none invented, none "
+            "twice, none missing; sFlow ColTime, the wall clock, set to 0 on both sides); phase 0 is sent one protocol at a time and no "
+            "counter of another protocol may move; the thorough tier adds a burst at full speed of datagrams that leave the cache "
+            "alone, for which only UDPCount <= sent, DecodedCount within [UDPCount - undecodable sent, decodable sent] and 'every line "
+            "is the payload of a datagram sent, at most as often as sent' are demanded",
     "assumptions": ["sync.Pool, channels and goroutine scheduling as atomic steps of Vflow.Model.Pipeline",
                     "the MQ channel never fills during the runs (the property's premise; the hook keeps < 400 datagrams in flight)",
                     "the per-datagram outcome class (no message / no data / marshal error / yields) is computed by the generator "
@@ -33,11 +44,13 @@ META = {
             "no drop the published messages are exactly the solo results of the yielding datagrams, one each. Worker and read loops "
             "are re-extracted from vflow/*.go on every run and must be Canonical (decide; after the read loop only the close of the "
             "reader's own UDP channel). The real pipeline is run over loopback "
-            "UDP; counters and the published multiset must match the solo decodes and the model's run.",
+            "UDP; counters and the published multiset must match the solo decodes and the model's run. End to end: the unmodified "
+            "binary with a rawSocket sink; /flow counters and the multiset of lines at the sink must equal what the real decoders "
+            "in-process say about the datagrams sent.",
     "ref": "DESIGN.md §6 C13",
-    "note": "Trusted: as C12. DecodedCount for sFlow follows the code (incremented after a successful marshal). The thorough-tier "
-            "e2e run of the built binary mentioned in DESIGN.md is not part of this check (the hook already drives the real read "
-            "loop, so UDPCount is exercised).",
+    "note": "Trusted: as C12. DecodedCount for sFlow follows the code (incremented after a successful marshal). The end-to-end traffic "
+            "cycles (e2e_e2etraffic.py) observe the statistics API and the sink of the unmodified binary in both tiers; trusted there: "
+            "the harness, loopback delivery guarded by UDPCount and the kernel's drop counter.",
     "technique": "Lean 4 invariant proof (event-log accounting) over a small-step concurrent model + regenerated worker IR "
-                 "(decide Canonical) + differential run of the real pipeline with counter/multiset oracle",
+                 "(decide Canonical) + differential run of the real pipeline with counter/multiset oracle + end-to-end traffic cycles of the built binary (/flow, rawSocket sink)",
 }
